@@ -16,17 +16,20 @@ META = {
                   "state_space_model_{dense,isotropic,blockdiag}.prior_wiener_integrated(_diffuse)",
                   "{Dense,Isotropic,BlockDiag}WienerIntegrated.transition", "*LatentCond.preconditioner_apply/merge",
                   "gram_util.pade_and_legendre_{3,5,7,9,13}.init", "gram_util._exp_gram_cholesky_double",
+                  "gram_util.exp_gram_cholesky / _exp_gram_cholesky_init",
                   "backend.linalg.qr_r/solve_lu"],
     "bounds": {"quick": "IWP: q in {1,2} (q=3 dense d=1), d<=2, the whole prior constructed INSIDE the trace (exact "
                         "arithmetic: sqrt of integers are algebraic atoms), symbolic step h>0, calibrated scale and base "
                         "scale; composition h1 then h2 (q=1); Pade/Legendre initialisation of all five orders on the nilpotent "
                         "IWP drift of size 2 and 3 (where every order is algebraically exact); one doubling step from an "
-                        "arbitrary (e^A, U)",
+                        "arbitrary (e^A, U); the public exp_gram_cholesky (orders 9, 13) on the nilpotent drift with a concrete "
+                        "tiny step 1/64 and symbolic noise scale, so the scaling/doubling count is the integer the real code "
+                        "computes (zero after the clamp)",
                "thorough": "IWP up to q=4; composition for q=2; Pade sizes up to 4"},
     "assumptions": ["A1 reals", "A2 QR contract", "the linear solve inside the Pade initialisation is any solution X of "
                     "(V-U) X = rhs"],
     "outside": ["general (non-nilpotent) drifts: e^{Ah} is transcendental; OU/Matern priors", "the data-dependent doubling "
-                "count ceil(log2(|A|/eta)) (symbolic log2/ceil)", "float32/float64 working precision", "q>4"],
+                "count ceil(log2(|A|/eta)) for a SYMBOLIC step (symbolic log2/ceil); concrete steps are covered by the full/* cases", "float32/float64 working precision", "q>4"],
 }
 
 
